@@ -1,70 +1,33 @@
-"""Per-property check configuration for mc.py (see DESIGN.md §5)."""
+"""Per-property check configuration for mc.py: one file per property under tools/checks.d/ (see DESIGN.md §5).
 
-SCHEDX_ASSUME = [
-    "code between two scheduling points touches shared state only under the component's lock or through channels "
-    "(discharged by the free-running -race pass, DESIGN §4.5)",
-    "map iteration order: uniform rotation per execution (runtime overlay), per-loop independent orders outside the bound",
-]
+Each file defines CHECK = dict(
+  pkgs=[...charon package dirs that get harness test files injected and a test binary built...],
+  libs=[...zzverif libraries needed...], vsync=[...files whose "sync" import is rewritten...],
+  run="TestVerifCxx" (or {pkg: name}), level=<evidence level>, engine, technique, claim, trusted, rule,
+  assumptions=[...], budget_s={"quick":..,"thorough":..}, shards={"quick":..,"thorough":..} (default: all cores),
+  gomaxprocs=1, mem_kb=...)
+"""
+import glob
+import importlib.util
+import os
+import sys
 
-CHECKS = {
-    "C17": dict(
-        pkgs=["core/aggsigdb"],
-        libs=["schedx", "vsync"],
-        vsync=["core/aggsigdb/memory_v2.go"],
-        run="TestVerifC17",
-        level="model_checking",
-        engine="schedx",
-        technique="stateless model checking of the real code: exhaustive preemption-bounded DFS over thread interleavings under a controlled scheduler (synctest quiescence), state-key pruning",
-        claim="every interleaving (quick: <=2 preemptions; thorough: unbounded) of 2-6 threads doing Await/Store/cancel/expiry on both real "
-              "implementations, scheduling points at every lock acquire/release; oracle: stored-value, conflict rejection, terminal-state "
-              "liveness (no reader blocked while its key is in the store), exact virtual-time promptness",
-        trusted="testing/synctest quiescence detection, the vsync lock shim and the runtime determinism overlay; assumes no unsynchronised "
-                "shared access between scheduling points (separate -race pass)",
-        rule="every interleaving (preemption-bounded DFS, state-key pruning) of 2-6 harness threads doing Await/Store/cancel "
-             "on the real MemDB and MemDBV2 with a real deadliner in virtual time; distinct = distinct observable outcomes",
-        assumptions=SCHEDX_ASSUME,
-        budget_s={"quick": 90, "thorough": 1200},
-    ),
-    "C07": dict(
-        pkgs=["core/parsigdb"],
-        libs=["schedx", "vsync"],
-        vsync=["core/parsigdb/memory.go"],
-        run="TestVerifC07",
-        level="model_checking",
-        engine="schedx",
-        technique="exhaustive enumeration of all arrival sequences of partial-signature batches over a small alphabet against the real store, "
-                  "plus stateless model checking (preemption-bounded DFS) of concurrent stores racing for the threshold",
-        claim="Part A: every arrival order of every per-share batch choice (n,t in {(3,2),(4,3)}; 2 validators; 2 roots; duplicates, equivocations, "
-              "mixed batches; internal/external; expiring, exempt, expired and root-less duty kinds; both map iteration orders). Part B: every "
-              "interleaving (quick <=2 preemptions, thorough unbounded) of 3-4 concurrent stores and the trimmer. Oracle: triggers judged against "
-              "the store's own private state (accepted partials) after every call",
-        trusted="the store's private `entries` map is taken as ground truth of what was accepted; synctest/vsync/runtime overlay as for C17",
-        rule="sequences of StoreInternal/StoreExternal calls + interleavings; distinct = distinct outcome vectors",
-        assumptions=SCHEDX_ASSUME,
-        budget_s={"quick": 100, "thorough": 1500},
-    ),
-    "C06": dict(
-        pkgs=["core/dutydb"],
-        libs=["schedx", "vsync"],
-        vsync=["core/dutydb/memory.go"],
-        run="TestVerifC06",
-        level="model_checking",
-        engine="schedx",
-        technique="stateless model checking of the real code: exhaustive preemption-bounded DFS over thread interleavings under a controlled scheduler (synctest quiescence), state-key pruning",
-        claim="every interleaving (quick <=2 preemptions; thorough unbounded for the 3-4 thread scenarios) of Store/Await*/PubKeyByAttestation/cancel/expiry "
-              "threads over equal, conflicting and partially conflicting data of all four duty kinds, both map iteration orders for multi-entry sets; "
-              "history oracle: per-key uniqueness, nothing invented, conflict rejection, expired refused, terminal-state liveness and exact virtual-time promptness",
-        trusted="synctest/vsync/runtime overlay as for C17; 'same signed content' of an aggregate key is the attestation data the key is the root of",
-        rule="interleavings of 3-5 harness threads; distinct = distinct outcome vectors",
-        assumptions=SCHEDX_ASSUME,
-        budget_s={"quick": 100, "thorough": 1500},
-    ),
-}
+_here = os.path.dirname(os.path.abspath(__file__))
+sys.path.insert(0, _here)
+
+CHECKS = {}
+for _f in sorted(glob.glob(os.path.join(_here, "checks.d", "C*.py"))):
+    _spec = importlib.util.spec_from_file_location("check_" + os.path.basename(_f)[:-3], _f)
+    _m = importlib.util.module_from_spec(_spec)
+    _spec.loader.exec_module(_m)
+    CHECKS[os.path.basename(_f)[:-3]] = _m.CHECK
 
 ENGINES = [
     {"name": "schedx", "path": "harness/zzverif/schedx", "serves_properties": ["C06", "C07", "C17", "C20"],
      "kind_free_text": "stateless DFS over thread interleavings of real components inside testing/synctest bubbles; "
                        "iterative preemption bounding, state-key pruning, virtual time"},
+    {"name": "enumx", "path": "harness/zzverif/enumx", "serves_properties": ["C05", "C08", "C09", "C10", "C11", "C12", "C14", "C18"],
+     "kind_free_text": "small-scope exhaustive enumeration of explicit finite input/configuration spaces against the real code"},
 ]
 
 NOT_APPLICABLE = {}
